@@ -182,7 +182,8 @@ def plan(tier, seed):
     if tier == "quick":
         runs = [("W-nest", "reduced", 2), ("W-nest-4", "reduced", 3), ("W-mix", "mixq", 2), ("W-flat", "gen", 4), ("W-flat", "assoc", 2), ("W-flat", "big", 2)]
     else:
-        runs = [("W-nest", "nest", 3), ("W-nest-4", "reduced", 4), ("W-mix", "mix", 3), ("W-flat", "gen", 6), ("W-nest-4", "gen", 5), ("W-flat", "assoc", 3), ("W-nest-4", "assoc", 2), ("W-flat", "big", 3)]
+        runs = [("W-nest", "nest", 2), ("W-nest", "reduced", 2), ("W-nest-4", "reduced", 4), ("W-mix", "mix", 2), ("W-mix", "mixq", 2), ("W-flat", "gen", 6),
+                ("W-nest-4", "gen", 5), ("W-flat", "assoc", 3), ("W-nest-4", "assoc", 2), ("W-flat", "big", 3)]
     for hs in seeds:
         for wname, alpha, depth in runs:
             jobs.append({"name": f"bfs:{wname}:{alpha}:d{depth}:seed{hs}", "mode": "compiled", "hashseed": hs,
